@@ -1,5 +1,6 @@
 import WowVerif.Model.C13M2
 import WowVerif.Lemmas.C13Anim
+import WowVerif.Lemmas.C13Skin
 /-!
 C13 — M2: relocation of preserved key-frame data keeps every track's data and every aliasing.
 
@@ -168,5 +169,20 @@ example : Anim.parseFile (Anim.writeFile { version := 1, unknown := 0, sections 
     [{ id := 7, t := none, r := none, s := none }, { id := 2, t := some { ts := [0, 50], vals := [1, 2, 3, 4, 5, 6] }, r := some { ts := [], vals := [] }, s := none }] }] })
   = some { version := 1, unknown := 0, sections := [{ id := 4, start := 0, stop := 100, bones :=
     [{ id := 0, t := none, r := none, s := none }, { id := 2, t := some { ts := [0, 50], vals := [1, 2, 3, 4, 5, 6] }, r := some { ts := [], vals := [] }, s := none }] }] } := by decide +kernel
+
+/-! ### skin files: the five data sections (Model.C13Skin = SkinG::write's offset bookkeeping) -/
+
+/-- SKIN SECTION OFFSETS: for any element counts, the (non-empty) sections named by the recorded offsets follow the header
+    one after the other without gap or overlap up to the end of the file, whose size is header + all section bytes; one
+    offset per section; an empty section is recorded with offset 0 -/
+theorem skin_sections_tile (hdr nIdx nTri nBone nSub nBatch : Nat) :
+    Water.Tiles hdr (Skin.regions (Skin.sectionBytes nIdx nTri nBone nSub nBatch) (Skin.lay hdr (Skin.sectionBytes nIdx nTri nBone nSub nBatch)).1)
+      (Skin.lay hdr (Skin.sectionBytes nIdx nTri nBone nSub nBatch)).2 ∧
+    (Skin.lay hdr (Skin.sectionBytes nIdx nTri nBone nSub nBatch)).1.length = 5 ∧
+    (Skin.lay hdr (Skin.sectionBytes nIdx nTri nBone nSub nBatch)).2 = hdr + 2 * nIdx + 2 * nTri + nBone + 48 * nSub + 24 * nBatch := by
+  refine ⟨(Skin.lay_tiles _ hdr).1, by rw [(Skin.lay_tiles _ hdr).2]; rfl, ?_⟩
+  rw [Skin.lay_end]; simp [Skin.sectionBytes]; omega
+
+example : Skin.lay 60 (Skin.sectionBytes 3 9 12 0 2) = ([60, 66, 84, 0, 96], 144) := by decide
 
 end Wv.M2
